@@ -11,7 +11,7 @@ TRUSTED_EXTRA = ["Model/Interp.v models eval_library_definition, get_library and
 
 
 def explore(ctx):
-    n = 300 if ctx.quick else 10000
+    n = 900 if ctx.quick else 20000
     cases = []
     dist = {"files": 0, "registered": 0}
     h = common.hexs
